@@ -42,6 +42,20 @@ def value_of(wire):
     return wire[a + b:]
 
 
+ORDER = {'interest': [7, 0x21, 0x12, 0x1e, 0x0a, 0x0c, 0x22, 0x24, 0x2c, 0x2e], 'data': [7, 0x14, 0x15, 0x16, 0x17]}
+
+
+def canonical_order(kind, v):
+    """The recognised top-level elements of the packet value appear once each and in declared order (the shape
+    every conforming encoder produces; outside it "ApplicationParameters of the Interest" is not well defined,
+    e.g. a second, out-of-order element of Type 0x24 that the decoder ignores as unrecognised)."""
+    els = TG.tlv_walk(v)
+    if els is None:
+        return False
+    idx = [ORDER[kind].index(t) for t, _ in els if t in ORDER[kind]]
+    return all(a < b for a, b in zip(idx, idx[1:]))
+
+
 def check_packet(ctx, M, kind, wire, rec, verify, label, mutate=True):
     """kind: 'interest' | 'data'."""
     from ndn.encoding import parse_interest, parse_data
@@ -153,14 +167,18 @@ def check_packet(ctx, M, kind, wire, rec, verify, label, mutate=True):
                 ctx.violation('verifier', 'tampered-accepted',
                               f'{label}: a packet differing in signed portion / signature value verifies', c2)
         if ok2 is False and not changed:
-            ctx.violation('verifier', 'untouched-rejected', f'{label}: change outside the signed portion makes verification fail', c2)
+            ctx.stat('mutant.untouched-but-rejected')     # not demanded by the property: recorded only
         if kind == 'interest':
             dp2, dc2 = opt(M([12, v2])), opt(M([13, v2]))
             want = dp2 is not None and dc2 is not None and hashlib.sha256(dp2).digest() == dc2
             got = bool(run_coro(params_sha256_checker(name2, ptrs2)))
             ndig = sum(1 for c in name2 if bytes(c)[:1] == b'\x02')
-            # a name with several ParametersSha256 components has no well-defined "its digest component": not judged
-            if got != want and ndig <= 1:
+            # a name with several ParametersSha256 components has no well-defined "its digest component", and a
+            # packet whose recognised elements are duplicated / out of order has no well-defined
+            # "ApplicationParameters of the Interest": not judged
+            if got != want and not (ndig <= 1 and canonical_order(kind, v2)):
+                ctx.stat('mutant.digest-iff-not-judged')
+            if got != want and ndig <= 1 and canonical_order(kind, v2):
                 ctx.violation('params_sha256_checker', 'digest-check-not-iff',
                               f'checker says {got}, digest component == SHA-256(AppParams..end) is {want}', c2)
         ctx.case((kind, w2), True, None, f'{kind}.{label}.{mk}.{"changed" if changed else "same"}.{ok2}')
